@@ -543,4 +543,68 @@ example : pads 3 9 [(1 : Rat), 2] = [0, 0] := by decide +kernel
 
 end shares
 
+/-! ## BoxLayout: putting geometry and shares together (exact arithmetic), re-layout -/
+
+section together
+
+/-- For exact arithmetic the geometry hypotheses reduce to the domain of the property: non-negative view size,
+non-negative preferred extents, non-negative fill factors, children ViewPorts attached to the layout's view. -/
+theorem geoOK_rat (hz : Bool) (vw vh : Int) (olds : List ViewPort) (cs : List (Child Rat))
+    (h1 : 0 ≤ vw) (h2 : 0 ≤ vh) (h3 : ∀ c ∈ cs, 0 ≤ c.ext hz) (h4 : ∀ c ∈ cs, 0 ≤ c.fill)
+    (h5 : ∀ o ∈ olds, o.hasView = true) : GeoOK hz vw vh olds cs :=
+  ⟨h1, h2, h3, pads_nonneg _ _ _ (by
+      intro f hf; obtain ⟨c, hc, rfl⟩ := List.mem_map.1 hf; exact h4 c hc), h5⟩
+
+theorem sum_zipWith_add : ∀ (a b : List Int), a.length = b.length →
+    sumInt (List.zipWith (· + ·) a b) = sumInt a + sumInt b
+  | [], [], _ => by simp
+  | x :: a, y :: b, h => by
+    have := sum_zipWith_add a b (by simpa using h)
+    simp [this]; omega
+  | [], _ :: _, h => by simp at h
+  | _ :: _, [], h => by simp at h
+
+/-- **When space suffices the children fill the view exactly.**  If the preferred extents fit and some fill factor
+is positive, the extents handed out (preferred + padding) add up to exactly the extent of the view — so
+`box_pref_when_fits` applies: every child gets its preferred extent plus its padding, nothing is clipped. -/
+theorem extents_fill_view (hz : Bool) (avail : Int) (cs : List (Child Rat)) (h4 : ∀ c ∈ cs, 0 ≤ c.fill)
+    (hpos : ∃ c ∈ cs, 0 < c.fill) (hfit : sumInt (cs.map (Child.ext hz)) ≤ avail) :
+    sumInt (extents hz avail cs) = avail := by
+  have hf : ∀ f ∈ cs.map (·.fill), 0 ≤ f := by
+    intro f hf; obtain ⟨c, hc, rfl⟩ := List.mem_map.1 hf; exact h4 c hc
+  have hp : ∃ f ∈ cs.map (·.fill), 0 < f := by
+    obtain ⟨c, hc, h⟩ := hpos; exact ⟨c.fill, List.mem_map_of_mem hc, h⟩
+  obtain ⟨hl, hs, _⟩ := pads_total avail (sumInt (cs.map (Child.ext hz))) (cs.map (·.fill)) hf hp
+  unfold extents
+  rw [sum_zipWith_add _ _ (by simp [hl]), hs]
+  unfold surplus; split <;> omega
+
+/-- **Re-layout is stable**: laying out again with unchanged inputs (same view size, same children) leaves every
+child ViewPort as it is — the result of a layout depends only on the orientation, the view size and the
+current child list (`layoutPlaces` is a function of exactly these), not on the history of
+AddWidget/InsertWidget/RemoveWidget/Resize/SetOrientation calls that produced the list.  In the heap model
+(Tcell.Model.ViewsTree) every one of these operations ends in `Heap.layout`, which applies `layoutPlaces` to
+the new child list; the `box` engine compares that model with boxlayout.go after every operation. -/
+theorem layout_functional (vw vh : Int) (o : ViewPort) (p : Place) :
+    applyPlace vw vh (applyPlace vw vh o p) p = applyPlace vw vh o p := by
+  simp only [applyPlace, ViewPort.resize]
+  cases hv : o.hasView
+  · simp [hv]
+  · simp only [Bool.not_true, Bool.false_eq_true, if_false]
+    congr 1 <;> (split <;> simp_all)
+
+example : GeoOK true 10 3 [({} : ViewPort), {}]
+    [({ w := 3, h := 1, fill := (1 : Rat) } : Child Rat), { w := 2, h := 1, fill := 0 }] := by
+  apply geoOK_rat
+  · decide
+  · decide
+  · intro c hc; simp at hc; rcases hc with rfl | rfl <;> decide
+  · intro c hc; simp at hc; rcases hc with rfl | rfl <;> decide
+  · intro o ho; simp at ho; subst ho; rfl
+
+example : extents true 10 [({ w := 3, h := 1, fill := (1 : Rat) } : Child Rat), { w := 2, h := 1, fill := 0 }] = [8, 2] := by
+  decide +kernel
+
+end together
+
 end Tcell.Props.C20
